@@ -105,17 +105,17 @@ def _eval_test(test, env):
         return True
 
 
-def _stmts(body, env, runs=True):
+def _stmts(body, env, top=True):
     """tokens of a statement list (without the closing E)"""
     out = []
     for st in body:
         if isinstance(st, (ast.FunctionDef, ast.AsyncFunctionDef)):
             out += ['F', '1' if isinstance(st, ast.AsyncFunctionDef) else '0', st.name]
             out += _deco_tokens(st.decorator_list) + _doc_tokens(st)
-            out += _stmts(st.body, env) + ['E']
+            out += _stmts(st.body, env, False) + ['E']
         elif isinstance(st, ast.ClassDef):
             out += ['C', st.name] + _deco_tokens(st.decorator_list) + _doc_tokens(st)
-            out += _stmts(st.body, env) + ['E']
+            out += _stmts(st.body, env, False) + ['E']
         elif isinstance(st, ast.If):
             t = st.test
             is_cmp = isinstance(t, ast.Compare)
@@ -135,31 +135,31 @@ def _stmts(body, env, runs=True):
             val = _eval_test(t, env)
             out += ['I', '1' if is_cmp else '0', '1' if op0 else '0'] + _opt(left) + _opt(comp0) + _opt(left_str) + _opt(comp0_id)
             out += ['1' if val else '0', '0' if val else '1']
-            out += _stmts(st.body, env) + ['E'] + _stmts(st.orelse, env) + ['E']
+            out += _stmts(st.body, env, top) + ['E'] + _stmts(st.orelse, env, top) + ['E']
         elif isinstance(st, (ast.For, ast.AsyncFor)):
             try:
                 n = len(list(eval(compile(ast.Expression(st.iter), '<iter>', 'eval'), dict(env))))
             except Exception:
                 n = 1
-            out += ['B', '1' if n else '0'] + _stmts(st.body, env) + ['E']
-            out += ['B', '1'] + _stmts(st.orelse, env) + ['E']
+            out += ['B', '1' if n else '0'] + _stmts(st.body, env, top) + ['E']
+            out += ['B', '1'] + _stmts(st.orelse, env, top) + ['E']
         elif isinstance(st, ast.While):
             val = _eval_test(st.test, env)
-            out += ['B', '1' if val else '0'] + _stmts(st.body, env) + ['E']
+            out += ['B', '1' if val else '0'] + _stmts(st.body, env, top) + ['E']
             # `while True: ...; break` : the else clause does not run; `while False` : it does
-            out += ['B', '0' if val else '1'] + _stmts(st.orelse, env) + ['E']
+            out += ['B', '0' if val else '1'] + _stmts(st.orelse, env, top) + ['E']
         elif isinstance(st, (ast.With, ast.AsyncWith)):
-            out += ['B', '1'] + _stmts(st.body, env) + ['E']
+            out += ['B', '1'] + _stmts(st.body, env, top) + ['E']
         elif isinstance(st, (ast.Try, getattr(ast, 'TryStar', ast.Try))):
             # the generated bodies never raise: handlers do not run, else and finally do
-            out += ['B', '1'] + _stmts(st.body, env) + ['E']
+            out += ['B', '1'] + _stmts(st.body, env, top) + ['E']
             for h in st.handlers:
-                out += ['B', '0'] + _stmts(h.body, env) + ['E']
-            out += ['B', '1'] + _stmts(st.orelse, env) + ['E']
-            out += ['B', '1'] + _stmts(st.finalbody, env) + ['E']
+                out += ['B', '0'] + _stmts(h.body, env, top) + ['E']
+            out += ['B', '1'] + _stmts(st.orelse, env, top) + ['E']
+            out += ['B', '1'] + _stmts(st.finalbody, env, top) + ['E']
         elif hasattr(ast, 'Match') and isinstance(st, ast.Match):
             for i, c in enumerate(st.cases):
-                out += ['B', '1' if i == 0 else '0'] + _stmts(c.body, env) + ['E']
+                out += ['B', '1' if i == 0 else '0'] + _stmts(c.body, env, top) + ['E']
         elif isinstance(st, ast.Import):
             for a in st.names:
                 out += ['M', a.asname or a.name.split('.')[0]]
@@ -169,6 +169,9 @@ def _stmts(body, env, runs=True):
             else:
                 for a in st.names:
                     out += ['M', a.asname or a.name]
+        elif (isinstance(st, ast.Assign) and len(st.targets) == 1 and isinstance(st.targets[0], ast.Name)
+              and isinstance(st.value, ast.Name) and st.value.id != st.targets[0].id and top):
+            out += ['L', st.targets[0].id, st.value.id]       # a second name for whatever `value` is bound to
         else:
             out += ['O']
     return out
@@ -272,7 +275,16 @@ def real_calldefs(source):
     import contextlib
     try:
         with contextlib.redirect_stdout(io.StringIO()):
-            cds = static_analysis.parse_static_calldefs(source=as_seen(source))
+            if variant_of(source) == 'latin1':
+                # a text under a latin-1 cookie cannot be handed over as `str` (it would be re-encoded as UTF-8): go through a file
+                import tempfile
+                with tempfile.TemporaryDirectory(prefix='xdocverif-') as td:
+                    fp = os.path.join(td, 'latin1_module.py')
+                    with open(fp, 'wb') as f:
+                        f.write(to_bytes(source))
+                    cds = static_analysis.parse_static_calldefs(fpath=fp)
+            else:
+                cds = static_analysis.parse_static_calldefs(source=as_seen(source))
     except IndexError:
         return 'error:IndexError', None
     except Exception as ex:
